@@ -192,6 +192,11 @@ class Transition:
                 continue
             chk.replayed += 1
             v = self.eval_concrete(prog, schema, w, out)
+            if len(chk.samples) < 6:
+                chk.samples.append({'obligation': ob.name, 'kind': 'reachability witness replayed on the real build (SQLite)',
+                                    'operations': w['scn']['ops'], 'pre_state_rows': {e: len(r) for e, r in w['scn']['rows'].items()},
+                                    'result': {k: x for k, x in (out['results'][-1] or {}).items() if k in ('err', 'result')},
+                                    'oracle_on_real_post_state': {'assertions': len(v), 'violated': [l for l, x in v.items() if x == 'violated']}})
             bad = [l for l, x in v.items() if x == 'violated']
             if bad:
                 # the model said these hold on this path; the real build disagrees => reldb model gap
